@@ -1,8 +1,17 @@
 #!/bin/sh
-# hooks.baseline_off_cmd: the repository's own build (guard OFF) and its 112-test baseline
+# hooks.baseline_off_cmd: the repository's own build (guard OFF) and its 112-test baseline.
+# The pinned suite has an inter-test race under `ctest -j8`: TestCppcheck::purgedConfiguration creates
+# bin/test.cpp with ScopedFile, which throws "file already exists" while TestSuppressions (same directory)
+# has its own test.cpp there. It shows on the ORIGINAL snapshot e33b503 in this sandbox as well (2 of 4
+# parallel runs, see DESIGN.md 9a), so a test that fails in the parallel run is re-run alone before it
+# counts as a failure.
 set -e
 if [ ! -f /repo/_build/build.ninja ]; then
   cmake -G Ninja -S /repo -B /repo/_build -DCMAKE_BUILD_TYPE=RelWithDebInfo -DBUILD_TESTS=ON -DCMAKE_CXX_FLAGS=-Wno-error
 fi
 cmake --build /repo/_build -j16
-ctest --test-dir /repo/_build -j8 --timeout 900
+if ctest --test-dir /repo/_build -j8 --timeout 900; then
+  exit 0
+fi
+echo "== re-running the failed tests alone (inter-test race on bin/test.cpp, see header) =="
+ctest --test-dir /repo/_build --rerun-failed --timeout 900 --output-on-failure
